@@ -21,8 +21,13 @@ fn all_flags_eval(net: &Network) -> bool {
 /// learn() with validation data: per-epoch validation metrics == validate() of the dropout-free twin at the same weights;
 /// afterwards predict == twin predict and no layer is left in training mode.
 pub fn learn_case(name: &'static str, input: Shape, layers: Vec<L>, nout: usize, epochs: usize, with_validation: bool) -> Case {
+    learn_case_tol(name, input, layers, nout, epochs, with_validation, 5)
+}
+
+/// `tolerance == 1` makes the early-stopping rule fire at epoch 2 whatever the losses are (window of one value)
+pub fn learn_case_tol(name: &'static str, input: Shape, layers: Vec<L>, nout: usize, epochs: usize, with_validation: bool, tolerance: i32) -> Case {
     Case {
-        id: format!("C09/learn/{}/epochs{}/{}", name, epochs, if with_validation { "validation" } else { "no-validation" }),
+        id: format!("C09/learn/{}/epochs{}/{}{}", name, epochs, if with_validation { "validation" } else { "no-validation" }, if tolerance == 1 { "/early-stop" } else { "" }),
         property: "C09",
         family: "Network::{learn,validate,predict}",
         class: "learn".into(),
@@ -43,7 +48,7 @@ pub fn learn_case(name: &'static str, input: Shape, layers: Vec<L>, nout: usize,
             let (vxr, vtr): (Vec<&Tensor>, Vec<&Tensor>) = (vx.iter().collect(), vt.iter().collect());
             let has_feedback = layers.iter().any(|l| matches!(l, L::Feedback(..)));
             let log = install_havoc_stub();
-            let r = ctx.catch(|_| net.learn(&xr, &tr, if with_validation { Some((&vxr, &vtr, 5)) } else { None }, 2, epochs as i32, None));
+            let r = ctx.catch(|_| net.learn(&xr, &tr, if with_validation { Some((&vxr, &vtr, tolerance)) } else { None }, 2, epochs as i32, None));
             remove_stubs();
             let (_tl, vl, va) = match r {
                 Ok(x) => x,
@@ -54,7 +59,9 @@ pub fn learn_case(name: &'static str, input: Shape, layers: Vec<L>, nout: usize,
             };
             ctx.fact("flags-after-learn", all_flags_eval(&net), "a layer is still in training mode after learn returned".into());
             if with_validation {
-                ctx.fact("validation-history-length", vl.len() == epochs && va.len() == epochs, format!("{} {}", vl.len(), va.len()));
+                let ran = if tolerance == 1 { epochs.min(2) } else { epochs };
+                ctx.fact("validation-history-length", vl.len() == ran && va.len() == ran, format!("{} {} (expected {})", vl.len(), va.len(), ran));
+                let epochs = ran;
                 // weights in force at the end of epoch e
                 let calls = log.borrow().clone();
                 let per_epoch = if epochs > 0 { calls.len() / epochs } else { 0 };
@@ -195,6 +202,9 @@ pub fn cases(tier: Tier, _seed: u64) -> Vec<Case> {
         }
         if full || name == "dense2-drop-first" {
             out.push(learn_case(name, input.clone(), layers.clone(), nout, 1, false));
+        }
+        if full || name == "dense3-drop-all" || name == "conv-dense2-drop-conv-and-last-hidden" {
+            out.push(learn_case_tol(name, input.clone(), layers.clone(), nout, 3, true, 1));
         }
         out.push(standalone_case(name, input.clone(), layers.clone(), nout));
     }
